@@ -556,6 +556,7 @@ INNER = [
     "select `my col` from t", "select a from t where s = 'x  y'", "select /* c */ a from t", "select a from t where b = '\\''",
     "(select a from t1) union (select a from t2)", "(select a from t1 where b in (1, 2)) union all (select a from t2 where c = f(1))", "(select a from t)", "((select a from t))",
     "select a from t where b in (select c from u)", "select (a + 1) * (b - 2) from t", "select a from (select a from t) as x",
+    "select a\n--\n, b\nfrom t", "select a -- x\n, b from t", "select a --\n from t", "select a /* c */ , /* d\n e */ b from t",
 ]
 
 
@@ -605,7 +606,26 @@ def bounded(rep, tier):
         rep.add_bounded(Bounded(cid, False, inp, obs, 'stored text = inner query up to whitespace/comments', bound='templates'))
 
 
+
+def ignore_obligations(rep):
+    """the text the lexer drops is exactly SQL's comments and white space (otherwise tokens of the statement silently disappear)"""
+    from vlib import lexmodel, lrtab as _lr
+    for dname in _lr.DIALECTS:
+        d = _lr.load(dname)
+        probs = lexmodel.ignore_rule_problems(d.Lexer)
+        fn_ = f'{d.lexer_module}:{d.lexer_class_name}'
+        clause = 'forall texts matched by an ignore rule: a `--`/`#` comment contains no line break, a block comment is the shortest /* ... */, anything else is white space'
+        if not probs:
+            rep.proved(f'C16.lex.ignore.{dname}', 'fst', 'every ignore rule matches only comments / white space', function=fn_, clause=clause)
+        for name, w, text in probs:
+            sql = None
+            if w is not None and name != 'ignore':
+                sql = f'select a {w} , b from t' if '\n' in (w or '') else None
+            rep.failed(f'C16.lex.ignore.{dname}.{name}', 'fst', text, function=fn_, clause=clause,
+                       replay={'input': f'select a\n{w}, b\nfrom t' if w else None, 'dialect': dname, 'fires': bool(w), 'observed': text, 'expected': 'only the comment is dropped'})
+
 def check(rep, tier):
+    ignore_obligations(rep)
     from vlib import statecensus
     statecensus.obligations(rep, 'C16', 'parser')
     rep.dropped = 'lexer actions extracted by vlib/codec.py; tokens_to_string loop body and parser actions read with ast.parse (decorators give the rules)'
